@@ -740,7 +740,9 @@ def scenarios(draw, prof=None):
                        "conv": draw(st.sampled_from(["closure", "args"]))}
         tags.append("regulariser")
         # S-FISTA sub-problems cost ~0.1 s per iteration: keep regularised runs short (budget in evaluations, not time)
-        case["maxfun"] = min(case["maxfun"] or 25, prof.get("reg_maxfun", 25))
+        case["maxfun"] = min(case["maxfun"] or 20, prof.get("reg_maxfun", 20))
+        if draw(st.integers(0, 9)) > 0:
+            up["func_tol.max_iters"] = draw(st.sampled_from([10, 25, 50]))   # a documented key; keeps S-FISTA cheap
     case["up"] = up
     case["np_seed"] = draw(st.integers(0, 2 ** 16))
     case["tags"] = sorted(set(tags))
